@@ -10,6 +10,7 @@ CPython model (PyEval) and the adjudication of the routes is done by TLC (Annota
 from __future__ import annotations
 
 import ast
+import builtins
 import collections.abc
 import types
 import typing
@@ -212,7 +213,7 @@ def describe_object(o: Any, *, const_pos: bool = False) -> dict:
     if o is collections.abc.Callable:
         return X("abccallable")
     if isinstance(o, type):
-        return X("class", o.__name__)
+        return X("class", class_name(o))
     if isinstance(o, (int, bytes)):
         return X("const", const_id(o))
     raise CodecError(f"cannot describe object {o!r}")
@@ -220,8 +221,20 @@ def describe_object(o: Any, *, const_pos: bool = False) -> dict:
 
 # --------------------------------------------------------------------------- pyanalyze values
 
+# classes of the realised modules that shadow a builtin of the same name: the builtin one is written
+# "builtins.<name>" so that the two are different terms
+SHADOWING = ("TimeoutError", "Warning")
+
+
+def class_name(t: Any) -> str:
+    name = getattr(t, "__name__", None)
+    if name in SHADOWING and t is getattr(builtins, name, None):
+        return "builtins." + name
+    return name if name is not None else repr(t)
+
+
 def _cname(t: Any) -> str:
-    return t if isinstance(t, str) else getattr(t, "__name__", repr(t))
+    return t if isinstance(t, str) else class_name(t)
 
 
 def describe_value(v: Any) -> dict:
